@@ -391,3 +391,109 @@ func judgeShadowUnits(c *Ctx, units []*probe.Unit, twins []*cfg.Config, labels [
 func rejected(c *Ctx, reason, what string, files map[string]string) {
 	c.Violate("generator-config-rejected:"+sigWords(reason), what, files)
 }
+
+// runtimeDecoratorOps lets the application register one more decorator (AddDecorator is part of the generated container's
+// interface) right after the container was built: for a tag some services carry, with a dependency on a service that is, or
+// reaches, a contextual one. "No declared scope" is resolved over the dependencies the container has when the service is
+// requested, so every service carrying the tag - and whatever depends on them - is contextual from then on. Nothing is added
+// where the new edge would close a cycle or put a declared-shared service above a contextual one.
+func runtimeDecoratorOps(conf *cfg.Config, ops []probe.Op, r *rand.Rand) ([]probe.Op, bool) {
+	g := ref.BuildGraph(conf)
+	if len(ref.ScopeErrors(conf, g)) > 0 {
+		return ops, false
+	}
+	reach := func(from string) map[string]bool {
+		seen := map[string]bool{from: true}
+		var walk func(n string)
+		walk = func(n string) {
+			for t := range g.SvcEdges[n] {
+				if !seen[t] {
+					seen[t] = true
+					walk(t)
+				}
+			}
+		}
+		walk(from)
+		return seen
+	}
+	declared := map[string]string{}
+	for _, s := range conf.Services {
+		if s.Scope != nil && !s.IsTodo() {
+			declared[s.Name] = *s.Scope
+		}
+	}
+	var tags []string
+	carriers := map[string][]string{}
+	for _, s := range conf.Services {
+		if s.IsTodo() {
+			continue
+		}
+		for _, t := range s.Tags {
+			if len(carriers[t.Name]) == 0 {
+				tags = append(tags, t.Name)
+			}
+			carriers[t.Name] = append(carriers[t.Name], s.Name)
+		}
+	}
+	sort.Strings(tags)
+	var srcs []string
+	for _, s := range conf.Services {
+		if s.IsTodo() {
+			continue
+		}
+		for n := range reach(s.Name) {
+			if declared[n] == "contextual" {
+				srcs = append(srcs, s.Name)
+				break
+			}
+		}
+	}
+	if len(tags) == 0 || len(srcs) == 0 {
+		return ops, false
+	}
+	r.Shuffle(len(tags), func(i, j int) { tags[i], tags[j] = tags[j], tags[i] })
+	r.Shuffle(len(srcs), func(i, j int) { srcs[i], srcs[j] = srcs[j], srcs[i] })
+	for _, t := range tags {
+	next:
+		for _, x := range srcs {
+			rx := reach(x)
+			for _, s := range carriers[t] {
+				if rx[s] {
+					continue next // would close a cycle
+				}
+			}
+			// everything at or above a carrier of the tag becomes (or stays) dependent on a contextual service
+			for _, s := range conf.Services {
+				if declared[s.Name] != "shared" {
+					continue
+				}
+				rs := reach(s.Name)
+				for _, cs := range carriers[t] {
+					if rs[cs] {
+						continue next
+					}
+				}
+			}
+			add := probe.Op{Op: "adddecorator", Name: t, Ctor: []string{"fixt/pa.DecSame", "fixt/pb.Dec"}[r.Intn(2)], Deps: []probe.DepSpec{{Dep: "value", T: "string", V: "rt-dec"}, {Dep: "service", Name: x}}}
+			var out []probe.Op
+			done := false
+			for _, op := range ops {
+				out = append(out, op)
+				if op.Op == "new" && !done {
+					out = append(out, add)
+					done = true
+				}
+			}
+			if !done {
+				return ops, false
+			}
+			for _, cs := range carriers[t] {
+				out = append(out, probe.Op{Op: "get", Name: cs}, probe.Op{Op: "get", Name: cs}, probe.Op{Op: "getctx", Name: cs, Ctx: 1}, probe.Op{Op: "getctx", Name: cs, Ctx: 1},
+					probe.Op{Op: "getctx", Name: cs, Ctx: 2}, probe.Op{Op: "getctx", Name: x, Ctx: 1}, probe.Op{Op: "getctx", Name: x, Ctx: 2})
+			}
+			out = append(out, probe.Op{Op: "tagged", Name: t}, probe.Op{Op: "taggedctx", Name: t, Ctx: 1}, probe.Op{Op: "taggedctx", Name: t, Ctx: 2})
+			return out, true
+		}
+	}
+	return ops, false
+}
